@@ -182,7 +182,7 @@ func enumWeight() bool {
 			c := &Case{Sub: "txweight", Ins: inSeqs[i], Outs: o}
 			check(c)
 			r.Nontrivial(keyOf(c))
-			if i == 77 && len(o) == 2 && o[0] == 3 {
+			if i == 77 && len(o) == 2 && o[0] == 3 && o[1] == 1 {
 				r.Sample(c)
 			}
 		}
